@@ -262,7 +262,7 @@ def run_case(case):
         # (c) same rebuild sets after touching the same file
         rng = core.rng_for(0, 'c06touch', case['touch_seed'])
         cands = m.source_files() + [f for f in m.intermediate_files()
-                                    if m.steps[m.producer[f]]['kind'] not in ('compile', 'copy')]
+                                    if m.steps[m.producer[f]]['kind'] not in ('compile', 'copy', 'pch')]
         for f in (rng.sample(cands, case['ntouch']) if len(cands) > case['ntouch'] else cands):
             sets = {}
             for backend, p in projs.items():
